@@ -332,7 +332,8 @@ where
         // and exp(μ) = E(X) / exp(σ² / 2) = E(X) / sqrt(CV² + 1)
         let a = F::one() + cv * cv; // e
         let mu = F::from(0.5).unwrap() * (mean * mean / a).ln();
-        let sigma = a.ln().sqrt();
+        // ln(1 + cv^2) through ln_1p: for a small cv, `1 + cv^2` keeps only a few digits of cv^2
+        let sigma = (cv * cv).ln_1p().sqrt();
         let norm = Normal::new(mu, sigma)?;
         Ok(LogNormal { norm })
     }
